@@ -18,7 +18,7 @@ Ev == Rec[l]
 TInit == Init /\ l = 1
 
 NewCompressor == /\ phase' = "idle" /\ level' = "F" /\ frame' = 0 /\ nfull' = 0 /\ blocks' = <<>>
-                 /\ encHuf' = 0 /\ decHuf' = 0 /\ trailer' = FALSE
+                 /\ encHuf' = 0 /\ decHuf' = 0 /\ trailer' = FALSE /\ hashClean' = TRUE
 
 \* the block just appended has the logged shape
 Shape == LET b == blocks'[Len(blocks')] IN b.kind = Ev.kind /\ b.d = Ev.d /\ b.lit = Ev.lit /\ b.last = Ev.last
